@@ -3,7 +3,12 @@
 // trace WITH a Lagrange-kernel column (GKR randomness drawn between the main-trace commitment and the
 // auxiliary random elements), over the 64-bit field with no / quadratic / cubic extension, with a
 // public input that is absorbed into the transcript, for two hash functions (Blake3_256, Rp64_256).
-// Prover and verifier derive the same challenges iff every honest proof of the grid is accepted (C04).
+// The same test AIR also runs single-segment and multi-segment-without-Lagrange shapes. The coin handed to the
+// real prover and the real verifier is a recording wrapper around DefaultRandomCoin: for every honest proof
+// the recorded sequence of coin operations of BOTH sides is compared with the order the protocol requires
+// (C04: seed = context || public inputs; each commitment / OOD message absorbed exactly once, the absorbed
+// value being the one carried in the proof, before the challenges that follow it; identical challenge values
+// on both sides) - so a reordering or omission made consistently on both sides is seen too.
 // Bound: the grid in `grid()`; bit flips / byte extremes / truncations on the first configurations.
 use std::panic::{catch_unwind, AssertUnwindSafe};
 
@@ -11,14 +16,17 @@ use air::LagrangeKernelRandElements;
 use winterfell::{
     crypto::{
         hashers::{Blake3_256, Rp64_256},
-        DefaultRandomCoin, ElementHasher, RandomCoin,
+        DefaultRandomCoin, Digest, ElementHasher, Hasher, RandomCoin, RandomCoinError,
     },
-    math::{fields::f64::BaseElement, ExtensionOf, FieldElement, ToElements},
+    math::{
+        fields::{f64::BaseElement, CubeExtension, QuadExtension},
+        ExtensionOf, FieldElement, ToElements,
+    },
     matrix::ColMatrix,
     verify, AcceptableOptions, Air, AirContext, Assertion, AuxRandElements,
     ConstraintCompositionCoefficients, DefaultConstraintEvaluator, DefaultTraceLde, EvaluationFrame,
-    FieldExtension, GkrVerifier, Proof, ProofOptions, Prover, ProverGkrProof, StarkDomain, Trace,
-    TraceInfo, TracePolyTable, TransitionConstraintDegree, VerifierError,
+    FieldExtension, GkrVerifier, Proof, ProofOptions, Prover, ProverGkrProof, Serializable, StarkDomain,
+    Trace, TraceInfo, TracePolyTable, TransitionConstraintDegree, VerifierError,
 };
 
 fn seed() -> u64 {
@@ -40,6 +48,65 @@ fn fail(msg: String) -> ! {
     panic!("NB-VIOLATION {msg}");
 }
 
+// RECORDING COIN
+// =================================================================================================
+#[derive(Clone, Debug, PartialEq, Eq)]
+enum Op {
+    New(Vec<u8>),
+    Reseed(Vec<u8>),
+    Draw(Vec<u8>),
+    Clz(u64, u32),
+    DrawInts(usize, usize, u64, Vec<usize>),
+}
+
+static LOG: std::sync::Mutex<Vec<Op>> = std::sync::Mutex::new(Vec::new());
+
+fn take_log() -> Vec<Op> {
+    std::mem::take(&mut *LOG.lock().unwrap())
+}
+
+fn record(op: Op) {
+    let mut log = LOG.lock().unwrap();
+    if log.len() < 1 << 20 {
+        log.push(op);
+    }
+}
+
+struct RecCoin<H: ElementHasher<BaseField = BaseElement>>(DefaultRandomCoin<H>);
+
+impl<H: ElementHasher<BaseField = BaseElement> + Sync> RandomCoin for RecCoin<H> {
+    type BaseField = BaseElement;
+    type Hasher = H;
+
+    fn new(seed: &[BaseElement]) -> Self {
+        record(Op::New(seed.to_vec().to_bytes()));
+        Self(DefaultRandomCoin::new(seed))
+    }
+
+    fn reseed(&mut self, data: H::Digest) {
+        record(Op::Reseed(data.as_bytes().to_vec()));
+        self.0.reseed(data)
+    }
+
+    fn check_leading_zeros(&self, value: u64) -> u32 {
+        let r = self.0.check_leading_zeros(value);
+        record(Op::Clz(value, r));
+        r
+    }
+
+    fn draw<E: FieldElement<BaseField = BaseElement>>(&mut self) -> Result<E, RandomCoinError> {
+        let r = self.0.draw::<E>()?;
+        record(Op::Draw(r.to_bytes()));
+        Ok(r)
+    }
+
+    fn draw_integers(&mut self, num_values: usize, domain_size: usize, nonce: u64) -> Result<Vec<usize>, RandomCoinError> {
+        let r = self.0.draw_integers(num_values, domain_size, nonce)?;
+        record(Op::DrawInts(num_values, domain_size, nonce, r.clone()));
+        Ok(r)
+    }
+}
+
 // PUBLIC INPUTS: first value of the main column
 // =================================================================================================
 #[derive(Clone, Copy, Debug)]
@@ -52,25 +119,43 @@ impl ToElements<BaseElement> for Start {
 }
 
 // TRACE: one main column start, start + 1, ...; aux column 0 = (sum of aux rands) * (main - start);
-// aux column 1 = the Lagrange kernel column
+// last aux column (shape Lagrange) = the Lagrange kernel column
 // =================================================================================================
-#[derive(Clone, Debug)]
-struct LagrangeTrace {
-    main_trace: ColMatrix<BaseElement>,
-    info: TraceInfo,
+#[derive(Clone, Copy, Debug, PartialEq, Eq)]
+enum Shape {
+    Single,
+    Aux,
+    Lagrange,
 }
 
-impl LagrangeTrace {
-    fn new(trace_len: usize, num_aux_rands: usize, start: u32) -> Self {
-        let col: Vec<BaseElement> = (0..trace_len).map(|i| BaseElement::from(start) + BaseElement::from(i as u32)).collect();
-        Self {
-            main_trace: ColMatrix::new(vec![col]),
-            info: TraceInfo::new_multi_segment(1, 2, num_aux_rands, trace_len, vec![num_aux_rands as u8]),
+impl Shape {
+    fn aux_width(self) -> usize {
+        match self {
+            Shape::Single => 0,
+            Shape::Aux => 1,
+            Shape::Lagrange => 2,
         }
     }
 }
 
-impl Trace for LagrangeTrace {
+#[derive(Clone, Debug)]
+struct TestTrace {
+    main_trace: ColMatrix<BaseElement>,
+    info: TraceInfo,
+}
+
+impl TestTrace {
+    fn new(shape: Shape, trace_len: usize, num_aux_rands: usize, start: u32) -> Self {
+        let col: Vec<BaseElement> = (0..trace_len).map(|i| BaseElement::from(start) + BaseElement::from(i as u32)).collect();
+        let info = match shape {
+            Shape::Single => TraceInfo::with_meta(1, trace_len, vec![7]),
+            _ => TraceInfo::new_multi_segment(1, shape.aux_width(), num_aux_rands, trace_len, vec![num_aux_rands as u8]),
+        };
+        Self { main_trace: ColMatrix::new(vec![col]), info }
+    }
+}
+
+impl Trace for TestTrace {
     type BaseField = BaseElement;
 
     fn info(&self) -> &TraceInfo {
@@ -121,12 +206,22 @@ impl GkrVerifier for CountingGkrVerifier {
     }
 }
 
-struct LagrangeAir {
+struct TestAir {
     context: AirContext<BaseElement>,
     start: BaseElement,
 }
 
-impl Air for LagrangeAir {
+impl TestAir {
+    fn shape(&self) -> Shape {
+        match self.context.trace_info().get_aux_segment_width() {
+            0 => Shape::Single,
+            1 => Shape::Aux,
+            _ => Shape::Lagrange,
+        }
+    }
+}
+
+impl Air for TestAir {
     type BaseField = BaseElement;
     type GkrProof = usize;
     type GkrVerifier = CountingGkrVerifier;
@@ -135,22 +230,21 @@ impl Air for LagrangeAir {
     fn new(trace_info: TraceInfo, pub_inputs: Start, options: ProofOptions) -> Self {
         // like the example AIRs, this AIR refuses trace shapes other than its own by asserting (user code:
         // such refusals of a damaged proof are counted separately, they are not library panics)
-        assert!(
-            trace_info.is_multi_segment() && trace_info.main_trace_width() == 1 && trace_info.get_aux_segment_width() == 2,
-            "unexpected trace shape"
-        );
-        Self {
-            context: AirContext::new_multi_segment(
+        assert!(trace_info.main_trace_width() == 1 && trace_info.get_aux_segment_width() <= 2, "unexpected trace shape");
+        assert!(trace_info.is_multi_segment() || trace_info.get_num_aux_segment_rand_elements() == 0, "unexpected trace shape");
+        let context = match trace_info.get_aux_segment_width() {
+            0 => AirContext::new(trace_info, vec![TransitionConstraintDegree::new(1)], 1, options),
+            w => AirContext::new_multi_segment(
                 trace_info,
                 vec![TransitionConstraintDegree::new(1)],
                 vec![TransitionConstraintDegree::new(1)],
                 1,
                 1,
-                Some(1),
+                if w == 2 { Some(1) } else { None },
                 options,
             ),
-            start: pub_inputs.0,
-        }
+        };
+        Self { context, start: pub_inputs.0 }
     }
 
     fn context(&self) -> &AirContext<Self::BaseField> {
@@ -196,19 +290,19 @@ impl Air for LagrangeAir {
 
 // PROVER
 // =================================================================================================
-struct LagrangeProver<H: ElementHasher<BaseField = BaseElement>> {
+struct TestProver<H: ElementHasher<BaseField = BaseElement>> {
     options: ProofOptions,
     _h: core::marker::PhantomData<H>,
 }
 
-impl<H: ElementHasher<BaseField = BaseElement> + Sync> Prover for LagrangeProver<H> {
+impl<H: ElementHasher<BaseField = BaseElement> + Sync> Prover for TestProver<H> {
     type BaseField = BaseElement;
-    type Air = LagrangeAir;
-    type Trace = LagrangeTrace;
+    type Air = TestAir;
+    type Trace = TestTrace;
     type HashFn = H;
-    type RandomCoin = DefaultRandomCoin<H>;
+    type RandomCoin = RecCoin<H>;
     type TraceLde<E: FieldElement<BaseField = BaseElement>> = DefaultTraceLde<E, H>;
-    type ConstraintEvaluator<'a, E: FieldElement<BaseField = BaseElement>> = DefaultConstraintEvaluator<'a, LagrangeAir, E>;
+    type ConstraintEvaluator<'a, E: FieldElement<BaseField = BaseElement>> = DefaultConstraintEvaluator<'a, TestAir, E>;
 
     fn get_pub_inputs(&self, trace: &Self::Trace) -> Start {
         Start(trace.main_segment().get(0, 0))
@@ -264,9 +358,12 @@ impl<H: ElementHasher<BaseField = BaseElement> + Sync> Prover for LagrangeProver
     {
         let main = main_trace.main_segment();
         let step = aux_rand_elements.rand_elements().iter().fold(E::ZERO, |a, &b| a + b);
-        let r = aux_rand_elements.lagrange().expect("lagrange random elements");
         let start = main.get(0, 0);
         let aux_col: Vec<E> = main.get_column(0).iter().map(|&v| step.mul_base(v - start)).collect();
+        if main_trace.info().get_aux_segment_width() == 1 {
+            return ColMatrix::new(vec![aux_col]);
+        }
+        let r = aux_rand_elements.lagrange().expect("lagrange random elements");
         let mut lagrange_col = Vec::with_capacity(main.num_rows());
         for row in 0..main.num_rows() {
             let mut v = E::ONE;
@@ -279,42 +376,214 @@ impl<H: ElementHasher<BaseField = BaseElement> + Sync> Prover for LagrangeProver
     }
 }
 
+// THE REQUIRED TRANSCRIPT (C04)
+// =================================================================================================
+#[derive(Debug)]
+enum Want {
+    New(Vec<u8>),
+    Reseed(&'static str, Vec<u8>),
+    Draws(&'static str, usize),
+    UnusedDraw,
+    Clz,
+    DrawInts,
+}
+
+/// the order of coin operations the protocol requires, with the absorbed values taken from the proof itself
+fn required_transcript<H, E>(proof: &Proof, start: u32) -> Vec<Want>
+where
+    H: ElementHasher<BaseField = BaseElement>,
+    E: FieldElement<BaseField = BaseElement>,
+{
+    let air = TestAir::new(proof.trace_info().clone(), Start(BaseElement::from(start)), proof.options().clone());
+    let shape = air.shape();
+    let log_n = proof.trace_info().length().ilog2() as usize;
+    let lde_domain_size = proof.trace_info().length() * proof.options().blowup_factor();
+    let num_fri_layers = proof.options().to_fri_options().num_fri_layers(lde_domain_size);
+    let num_segments = if shape == Shape::Single { 1 } else { 2 };
+    let (trace_roots, constraint_root, fri_roots) = proof.commitments.clone().parse::<H>(num_segments, num_fri_layers).expect("commitments");
+    let num_columns = air.context().num_constraint_composition_columns();
+    let (ood_trace, ood_evals) = proof.ood_frame.clone().parse::<E>(1, shape.aux_width(), num_columns).expect("OOD frame");
+
+    let mut seed_elements: Vec<BaseElement> = proof.context.to_elements();
+    seed_elements.push(BaseElement::from(start));
+
+    let mut w = vec![Want::New(seed_elements.to_bytes()), Want::Reseed("main trace commitment", trace_roots[0].as_bytes().to_vec())];
+    let mut num_coefficients = 2; // one transition constraint, one assertion
+    let mut num_deep = 1 + num_columns;
+    if shape != Shape::Single {
+        let gkr = if shape == Shape::Lagrange { log_n } else { 0 };
+        w.push(Want::Draws(
+            "GKR randomness, then auxiliary-segment randomness",
+            gkr + proof.trace_info().get_num_aux_segment_rand_elements(),
+        ));
+        w.push(Want::Reseed("auxiliary trace commitment", trace_roots[1].as_bytes().to_vec()));
+        num_coefficients += 2;
+        num_deep += shape.aux_width();
+        if shape == Shape::Lagrange {
+            num_coefficients += log_n + 1;
+            num_deep += 1;
+        }
+    }
+    w.push(Want::Draws("constraint composition coefficients", num_coefficients));
+    w.push(Want::Reseed("constraint commitment", constraint_root.as_bytes().to_vec()));
+    w.push(Want::Draws("out-of-domain point", 1));
+    w.push(Want::Reseed("OOD trace frame", ood_trace.hash::<H>().as_bytes().to_vec()));
+    w.push(Want::Reseed("OOD constraint evaluations", H::hash_elements(&ood_evals).as_bytes().to_vec()));
+    w.push(Want::Draws("DEEP coefficients", num_deep));
+    for (k, c) in fri_roots.iter().enumerate() {
+        if k + 1 < fri_roots.len() {
+            w.push(Want::Reseed("FRI layer commitment", c.as_bytes().to_vec()));
+            w.push(Want::Draws("FRI folding challenge", 1));
+        } else {
+            // nothing is folded after the remainder: the verifier draws a value here that neither side uses,
+            // the prover draws none (draws do not change the coin seed, so later challenges are unaffected)
+            w.push(Want::Reseed("FRI remainder commitment", c.as_bytes().to_vec()));
+            w.push(Want::UnusedDraw);
+        }
+    }
+    w.push(Want::Clz);
+    w.push(Want::DrawInts);
+    w
+}
+
+/// compares one side's recorded operations with the required transcript; returns the challenge values
+fn match_transcript(side: &str, what: &str, proof: &Proof, want: &[Want], log: &[Op]) -> Vec<Op> {
+    let lde_domain_size = proof.trace_info().length() * proof.options().blowup_factor();
+    let mut challenges = Vec::new();
+    let mut i = 0usize;
+    let bad = |i: usize, w: String| -> ! {
+        let got = log.get(i).map(|o| format!("{o:?}")).unwrap_or("end of transcript".to_string());
+        fail(format!(
+            "{side} transcript departs from the required order at operation {i}: required {w}, observed {}: {what}",
+            &got[..got.len().min(100)]
+        ))
+    };
+    for (wi, w) in want.iter().enumerate() {
+        match w {
+            Want::New(seed) => {
+                if log.get(i) != Some(&Op::New(seed.clone())) {
+                    bad(i, "New(context elements || public inputs)".to_string());
+                }
+                i += 1;
+            },
+            Want::Reseed(name, data) => {
+                // messages absorbed back to back with no challenge drawn in between may come in either order
+                let mut j = wi;
+                while j > 0 && matches!(want[j - 1], Want::Reseed(..)) {
+                    j -= 1;
+                }
+                let first = i - (wi - j);
+                let mut k = wi;
+                while k + 1 < want.len() && matches!(want[k + 1], Want::Reseed(..)) {
+                    k += 1;
+                }
+                let group = &log[first.min(log.len())..(first + (k - j) + 1).min(log.len())];
+                if !group.contains(&Op::Reseed(data.clone())) || !matches!(log.get(i), Some(Op::Reseed(_))) {
+                    bad(i, format!("Reseed({name} as carried in the proof)"));
+                }
+                i += 1;
+            },
+            Want::Draws(name, n) => {
+                for _ in 0..*n {
+                    match log.get(i) {
+                        Some(op @ Op::Draw(_)) => challenges.push(op.clone()),
+                        _ => bad(i, format!("Draw ({name}, {n} in total)")),
+                    }
+                    i += 1;
+                }
+            },
+            Want::UnusedDraw => {
+                if let Some(Op::Draw(_)) = log.get(i) {
+                    i += 1;
+                }
+            },
+            Want::Clz => {
+                // the prover searches for the nonce (any number of trials); the verifier checks it exactly once
+                let mut trials = 0;
+                while let Some(Op::Clz(nonce, zeros)) = log.get(i) {
+                    trials += 1;
+                    if side == "verifier" && (*nonce != proof.pow_nonce || *zeros < proof.options().grinding_factor()) {
+                        bad(i, "check_leading_zeros(proof nonce) >= grinding factor".to_string());
+                    }
+                    i += 1;
+                }
+                if trials == 0 || (side == "verifier" && trials != 1) {
+                    bad(i, "proof-of-work check on the coin state reached after the last FRI commitment".to_string());
+                }
+            },
+            Want::DrawInts => {
+                match log.get(i) {
+                    Some(op @ Op::DrawInts(n, d, nonce, _))
+                        if *n == proof.options().num_queries() && *d == lde_domain_size && *nonce == proof.pow_nonce =>
+                    {
+                        challenges.push(op.clone())
+                    },
+                    _ => bad(i, "draw_integers(num_queries, lde_domain_size, proof nonce)".to_string()),
+                }
+                i += 1;
+            },
+        }
+    }
+    if i != log.len() {
+        bad(i, "end of transcript".to_string());
+    }
+    challenges
+}
+
+fn check_transcript<H: ElementHasher<BaseField = BaseElement>>(what: &str, proof: &Proof, start: u32, plog: &[Op], vlog: &[Op]) {
+    let want = match proof.options().field_extension() {
+        FieldExtension::None => required_transcript::<H, BaseElement>(proof, start),
+        FieldExtension::Quadratic => required_transcript::<H, QuadExtension<BaseElement>>(proof, start),
+        FieldExtension::Cubic => required_transcript::<H, CubeExtension<BaseElement>>(proof, start),
+    };
+    let pc = match_transcript("prover", what, proof, &want, plog);
+    let vc = match_transcript("verifier", what, proof, &want, vlog);
+    if pc != vc {
+        fail(format!("prover and verifier derive different challenge values from the same transcript: {what}"));
+    }
+}
+
 // GRID
 // =================================================================================================
-fn grid() -> Vec<(usize, usize, ProofOptions)> {
+fn grid() -> Vec<(Shape, usize, usize, ProofOptions)> {
     let mut v = Vec::new();
     for ext in [FieldExtension::None, FieldExtension::Quadratic, FieldExtension::Cubic] {
         for (trace_len, folding, rmd) in [(8usize, 2usize, 1usize), (16, 4, 3), (64, 2, 0), (128, 8, 7), (32, 16, 31)] {
             for num_aux_rands in [1usize, 2, 3] {
                 for (queries, blowup, grinding) in [(4usize, 4usize, 0u32), (13, 8, 5)] {
-                    v.push((trace_len, num_aux_rands, ProofOptions::new(queries, blowup, grinding, ext, folding, rmd)));
+                    v.push((Shape::Lagrange, trace_len, num_aux_rands, ProofOptions::new(queries, blowup, grinding, ext, folding, rmd)));
                 }
             }
+            v.push((Shape::Aux, trace_len, 2, ProofOptions::new(5, 4, 3, ext, folding, rmd)));
+            v.push((Shape::Single, trace_len, 0, ProofOptions::new(6, 2, 2, ext, folding, rmd)));
         }
     }
     v
 }
 
-fn verify_as<H: ElementHasher<BaseField = BaseElement>>(proof: Proof, start: u32) -> Result<(), VerifierError> {
-    verify::<LagrangeAir, H, DefaultRandomCoin<H>>(proof, Start(BaseElement::from(start)), &AcceptableOptions::MinConjecturedSecurity(0))
+fn verify_as<H: ElementHasher<BaseField = BaseElement> + Sync>(proof: Proof, start: u32) -> Result<(), VerifierError> {
+    verify::<TestAir, H, RecCoin<H>>(proof, Start(BaseElement::from(start)), &AcceptableOptions::MinConjecturedSecurity(0))
 }
 
 struct Counts {
     proofs: u64,
     damaged: u64,
     air_refusals: u64,
+    transcripts: u64,
 }
 
 fn run_hasher<H: ElementHasher<BaseField = BaseElement> + Sync>(tag: &str, damage_first: usize, c: &mut Counts) {
-    for (ci, (trace_len, num_aux_rands, o)) in grid().into_iter().enumerate() {
-        let what = format!("hasher={tag} trace_len={trace_len} aux_rands={num_aux_rands} options={o:?}");
+    for (ci, (shape, trace_len, num_aux_rands, o)) in grid().into_iter().enumerate() {
+        let what = format!("hasher={tag} shape={shape:?} trace_len={trace_len} aux_rands={num_aux_rands} options={o:?}");
         let start = 3 + (seed() as u32 % 1000) + ci as u32;
-        let prover = LagrangeProver::<H> { options: o.clone(), _h: core::marker::PhantomData };
-        let proof = match catch_unwind(AssertUnwindSafe(|| prover.prove(LagrangeTrace::new(trace_len, num_aux_rands, start)))) {
+        let prover = TestProver::<H> { options: o.clone(), _h: core::marker::PhantomData };
+        take_log();
+        let proof = match catch_unwind(AssertUnwindSafe(|| prover.prove(TestTrace::new(shape, trace_len, num_aux_rands, start)))) {
             Ok(Ok(p)) => p,
             Ok(Err(e)) => fail(format!("prover refused a valid execution ({e}): {what}")),
             Err(_) => fail(format!("prover panicked on a valid execution at {}: {what}", last_panic())),
         };
+        let plog = take_log();
         c.proofs += 1;
         let bytes = proof.to_bytes();
         let back = match Proof::from_bytes(&bytes) {
@@ -329,6 +598,9 @@ fn run_hasher<H: ElementHasher<BaseField = BaseElement> + Sync>(tag: &str, damag
             Ok(Err(e)) => fail(format!("honest proof rejected ({e}): {what}")),
             Err(_) => fail(format!("verifier panicked on an honest proof at {}: {what}", last_panic())),
         }
+        let vlog = take_log();
+        check_transcript::<H>(&what, &proof, start, &plog, &vlog);
+        c.transcripts += 1;
         match catch_unwind(AssertUnwindSafe(|| verify_as::<H>(Proof::from_bytes(&bytes).unwrap(), start + 1))) {
             Ok(Ok(())) => fail(format!("proof accepted for a different public input: {what}")),
             Ok(Err(_)) => {},
@@ -338,15 +610,18 @@ fn run_hasher<H: ElementHasher<BaseField = BaseElement> + Sync>(tag: &str, damag
         if ci >= damage_first || trace_len > 16 {
             continue;
         }
+        // (the FRI partition count is layout-only metadata; it sits 10 bytes before the end of the proof,
+        // in front of the nonce and the GKR-proof option, which here is 1 + 8 bytes when present)
+        let partition_byte = bytes.len() - 10 - if shape == Shape::Lagrange { 8 } else { 0 };
         let check = |b: &[u8], desc: String, at: usize, c: &mut Counts| {
             c.damaged += 1;
+            take_log();
             match catch_unwind(AssertUnwindSafe(|| match Proof::from_bytes(b) {
                 Ok(p) => verify_as::<H>(p, start).is_ok(),
                 Err(_) => false,
             })) {
                 Ok(false) => {},
-                // (the FRI partition count, 10 bytes from the end, is layout-only metadata)
-                Ok(true) if at == bytes.len() - 10 => {},
+                Ok(true) if at == partition_byte => {},
                 Ok(true) => fail(format!("proof with {desc} is accepted: {what}")),
                 Err(_) if last_panic().contains("tests/verif_") => c.air_refusals += 1,
                 Err(_) => fail(format!("parsing/verifying a proof with {desc} panicked at {}: {what}", last_panic())),
@@ -388,8 +663,11 @@ fn lagrange_pipeline_bounded() {
         let loc = info.location().map(|l| format!("{}:{}", l.file(), l.line())).unwrap_or_default();
         *LAST_PANIC.lock().unwrap() = loc;
     }));
-    let mut c = Counts { proofs: 0, damaged: 0, air_refusals: 0 };
-    run_hasher::<Blake3_256<BaseElement>>("blake3_256", 8, &mut c);
+    let mut c = Counts { proofs: 0, damaged: 0, air_refusals: 0, transcripts: 0 };
+    run_hasher::<Blake3_256<BaseElement>>("blake3_256", 10, &mut c);
     run_hasher::<Rp64_256>("rp64_256", 2, &mut c);
-    println!("NB-RESULT name=lagrange_pipeline_bounded proofs={} damaged_proofs={} refused_by_test_air={}", c.proofs, c.damaged, c.air_refusals);
+    println!(
+        "NB-RESULT name=lagrange_pipeline_bounded proofs={} transcripts_compared={} damaged_proofs={} refused_by_test_air={}",
+        c.proofs, c.transcripts, c.damaged, c.air_refusals
+    );
 }
